@@ -481,7 +481,7 @@ def line_fit(x,y,label=None):
 
     siga = math.sqrt( (1.0 + S_x*S_x/(N*S_tt))/N )
     sigb = math.sqrt( 1.0/S_tt )
-    r_ab = -S_x/(N*S_tt*siga*sigb)
+    r_ab = _clip_r( -S_x/(N*S_tt*siga*sigb) )
     
     # Sum of squared residuals needed to correctly calculate parameter uncertainties
     f = lambda x_i,y_i: (y_i - a_ - b_*x_i)**2 
@@ -535,7 +535,7 @@ def _line_fit_wls(x,y,u_y):
 
     siga = math.sqrt( (1.0 + S_x*S_x/(S*S_tt))/S )
     sigb = math.sqrt( 1.0/S_tt )
-    r_ab = -S_x/(S*S_tt*siga*sigb)
+    r_ab = _clip_r( -S_x/(S*S_tt*siga*sigb) )
     
     f = lambda x_i,y_i,u_y_i: ((y_i - a_ - b_*x_i)/u_y_i)**2 
     ssr =  math.fsum( f(x_i,y_i,u_y_i) for x_i,y_i,u_y_i in izip(x,y,u_y) )
